@@ -1,6 +1,7 @@
 package main
 
 import (
+	"sync/atomic"
 	"golang.org/x/tools/go/ssa"
 	"go/types"
 	"strconv"
@@ -56,6 +57,10 @@ type CheckOpts struct {
 	All      bool // run all back ends to completion (cross-check)
 	Verbose  bool
 	OnlyFn   string
+	// Fast: the bounded stand-in - short per-obligation limit, no conjunct-wise retry, stop at the first
+	// obligation that is not discharged, overall deadline
+	Fast     bool
+	Deadline time.Time
 }
 
 // funcsForProp returns contract keys (sorted) whose props include prop.
@@ -134,15 +139,31 @@ func boundedFallback(P *Program, fr *FuncResult, opts CheckOpts, reason string) 
 	saved := cexUnroll
 	var ex *Exec
 	var err error
+	if os.Getenv("GOCV_DEBUG") != "" {
+		fmt.Fprintf(os.Stderr, "BOUNDED-START %s (%s)\n", fr.Key, reason)
+	}
 	k := boundedUnroll
+	t0 := time.Now()
 	for ; k >= 2; k-- {
-		cexMode, boundedMode, cexUnroll = true, true, k
+		if time.Since(t0) > 20*time.Second {
+			return nil
+		}
+		cexMode, boundedMode, cexUnroll, maxPathsDefault = true, true, k, 1200
+		genDeadline = time.Now().Add(8 * time.Second)
 		ex, err = VerifyFunc(P, fn, spec, opts.Prop)
-		cexMode, boundedMode, cexUnroll = false, false, saved
+		genDeadline = time.Time{}
+		cexMode, boundedMode, cexUnroll, maxPathsDefault = false, false, saved, 4000
+		if os.Getenv("GOCV_DEBUG") != "" {
+			no := -1
+			if ex != nil {
+				no = len(ex.obligs)
+			}
+			fmt.Fprintf(os.Stderr, "BOUNDED-GEN %s k=%d err=%v obligs=%d t=%.1fs\n", fr.Key, k, err, no, time.Since(t0).Seconds())
+		}
 		if err == nil && ex != nil && len(ex.obligs) > 0 && len(ex.obligs) <= 3000 {
 			break
 		}
-		if err != nil && !strings.Contains(err.Error(), "paths") {
+		if err != nil && !strings.Contains(err.Error(), "paths") && !strings.Contains(err.Error(), "time budget") {
 			break
 		}
 	}
@@ -153,7 +174,10 @@ func boundedFallback(P *Program, fr *FuncResult, opts CheckOpts, reason string) 
 		return nil
 	}
 	fr2 := &FuncResult{Key: fr.Key, Ex: ex}
-	solveFunction(fr2, opts)
+	fopts := opts
+	fopts.Fast, fopts.TimeoutS, fopts.All = true, 5, false
+	fopts.Deadline = time.Now().Add(45 * time.Second)
+	solveFunction(fr2, fopts)
 	if len(fr2.CoverBad) > 0 {
 		return nil
 	}
@@ -213,6 +237,7 @@ func solveFunction(fr *FuncResult, opts CheckOpts) {
 	}
 	var wg sync.WaitGroup
 	sem := solveSlots
+	var fastFailed int32
 	for _, o := range ex.obligs {
 		if o.Goal.IsTrue() {
 			o.Res = SolverResult{Status: "unsat", Backend: "trivial"}
@@ -223,6 +248,18 @@ func solveFunction(fr *FuncResult, opts CheckOpts) {
 			defer wg.Done()
 			sem <- struct{}{}
 			defer func() { <-sem }()
+			if opts.Fast && (atomic.LoadInt32(&fastFailed) != 0 || time.Now().After(opts.Deadline)) {
+				o.Res = SolverResult{Status: "unknown", Backend: "skipped"}
+				atomic.StoreInt32(&fastFailed, 1)
+				return
+			}
+			if opts.Fast {
+				defer func() {
+					if o.Res.Status != "unsat" {
+						atomic.StoreInt32(&fastFailed, 1)
+					}
+				}()
+			}
 			asserts := append([]*Term{}, ex.axioms...)
 			asserts = append(asserts, o.Hyps...)
 			asserts = append(asserts, Not(o.Goal))
@@ -254,7 +291,7 @@ func solveFunction(fr *FuncResult, opts CheckOpts) {
 					}
 				}
 			}
-			if o.Res.Status != "unsat" && o.Res.Status != "sat" && len(flattenAnd(o.Goal)) > 1 {
+			if !opts.Fast && o.Res.Status != "unsat" && o.Res.Status != "sat" && len(flattenAnd(o.Goal)) > 1 {
 				// conjunct-wise: every conjunct of the goal on its own
 				allOK := true
 				total := o.Res.Time
@@ -511,7 +548,8 @@ func runCheck(repo, verifDir string, opts CheckOpts, overlay map[string][]byte, 
 		switch {
 		case fr.Err != "" && !strings.Contains(fr.Err, "contract for a function that does not exist"):
 			reason = "the proof could not be set up (" + truncate(fr.Err, 160) + ")"
-		case loopOnlyFailure(fr):
+		case loopOnlyFailure(fr) && os.Getenv("GOCV_BOUNDED_LOOPS") != "":
+			// (experimental, off by default: too slow / memory hungry on some functions)
 			reason = "the loop invariants of the contract do not hold for the loops as they are written now"
 		}
 		if reason == "" || known != nil && false {
